@@ -144,8 +144,8 @@ def one(case):
         if m.encode() in data:
             v.append(("literal-in-binary:%s" % pos, "%s: literal of length %d in position %s appears verbatim in the binary: %s..." % (label, n, pos, m[:40])))
     for sflag, raw in SEEDS:
-        if sflag in fl:
-            if sflag[6:].encode() in data or (raw and raw in data):
+        if sflag in fl and raw:   # only marker-bearing seeds: a run of "A" characters occurs in any binary
+            if sflag[6:].encode() in data or raw in data:
                 v.append(("seed-in-binary", "%s: the seed value appears in the binary" % label))
     o = exec_bin(d + "/out")
     if o.stdout != refp.stdout or o.returncode != refp.returncode:
